@@ -348,6 +348,23 @@ def tcp_wrap(ctx):
                                 a2b=dict(), b2a=dict()))
     segs, stats, rep = tcplib.run_pair(ctx, drv, scs, ['C01', 'C02', 'C04'], 'c14tcp', what='TCP with wrap-adjacent initial sequence numbers', classify=tcplib.classify_all)
     ctx.extra['tcp_wrap'] = stats
+    # loss recovery (C05 clauses, synchronous wire) with the sender's ISS at the wrap points: the NewReno recover mark and the
+    # duplicate-ACK test compare sequence numbers of BOTH directions' spaces only by accident; the peer's ISS is random
+    ctx.kf_props = ('C01', 'C02', 'C04', 'C05')
+    scs5 = []
+    k = 0
+    for hi, lo in [(0xffff, 0xff00), (0xffff, 0xfffe), (0x7fff, 0xff00), (0x8000, 0x0000), (0, 1), (0x4000, 0x1234)]:
+        for pos in ((3, 1) if ctx.thorough() else (3,)):
+            for rep_ in range(3 if ctx.thorough() else 2):
+                k += 1
+                mss = 576 - 52
+                scs5.append(dict(v=4, mtu=576, sack=(k % 2 == 0), cc='', deadline_ms=45000, seed=600 + k, flags={}, sync=True,
+                                 tag='wrap-loss%d-iss%04x%04x-drop%d' % (k, hi, lo, pos),
+                                 a=dict(writes=[12 * mss], shutdown=True, iss=[hi, lo]), b=dict(writes=[], shutdown=True),
+                                 a2b=dict(rules=[dict(kind='data', nth=pos, act='drop')]), b2a=dict()))
+    segs5, stats5, rep5 = tcplib.run_pair(ctx, drv, scs5, ['C05'], 'c14c05', what='TCP loss recovery with wrap-adjacent initial sequence numbers',
+                                          classify=tcplib.classify_all)
+    ctx.extra['tcp_wrap_loss_recovery'] = stats5
     ctx.extra['tcp_wrap_iss_placements'] = ['%04x%04x' % tuple(p) for p in placements]
     ctx.sample(dict(kind='tcp-wrap-scenario', scenario=scs[0]))
 
